@@ -84,6 +84,8 @@ def gen_face_grid(rng, allow_big=False):
     else:
         F = rng.randint(2, 5)
         links = worlds.random_reciprocal_links(rng, F)
+    if rng.random() < 0.4:
+        links = worlds.sparsify(rng, links)
     axes = {"X": {"n": N, "pos": {"center": "xc", "left": "xg"}},
             "Y": {"n": N, "pos": {"center": "yc", "left": "yg"}}}
     if rng.random() < 0.3:
